@@ -18,7 +18,7 @@ CHECKS = {
          "DESIGN.md §4 C15"),
  "C16": ("exploration",
          "runtime monitor: triple-run equality incl. generator fingerprints over a registry of every stochastic operation with seed-derived input sizes (second run on another thread, third run after a reversed call history, fixtures rebuilt), interleaved call histories on shared operator values, Push runs under every input declaration order with confusable input names",
-         "39 registry entries x 2e4 (quick) / 4e5 (thorough) seeds, input/output sizes 0..2049 derived from the seed (both sides of 32/64/128/256/1024); A(s1),B(s2),A(s1) histories on pipelines, UMAD, GeneGenerator, Lexicase, where B is in turn an ordinary call, a call on an empty population / genome and a call that fails part-way (an individual with fewer results than lexicase looks at); operator values shared by four threads; 2e4 / 4e5 random Push programs with up to 5 named inputs (short names, or long names agreeing on their first 15/16/23/32/64 bytes, prefixes, case/whitespace/normalisation variants, the empty name) run under all declaration orders (<= 120) comparing results and PushState equality.",
+         "39 registry entries x 2e4 (quick) / 4e5 (thorough) seeds, input/output sizes 0..2049 derived from the seed (both sides of 32/64/128/256/1024); A(s1),B(s2),A(s1) histories on pipelines, UMAD, GeneGenerator, Lexicase, (and 25 long-lived selector / mutator / recombinator / pipeline / distribution values called again after one to four other calls and compared with values built afresh) where B is in turn an ordinary call, a call on an empty population / genome and a call that fails part-way (an individual with fewer results than lexicase looks at); operator values shared by four threads; 2e4 / 4e5 random Push programs with up to 5 named inputs (short names, or long names agreeing on their first 15/16/23/32/64 bytes, prefixes, case/whitespace/normalisation variants, the empty name) run under all declaration orders (<= 120) comparing results and PushState equality.",
          "A hidden randomness source would have to coincide across two runs on two threads to go unnoticed; Generation stepping deliberately uses the thread RNG and belongs to C09.",
          "DESIGN.md §4 C16"),
  "C17": ("exploration",
@@ -28,12 +28,12 @@ CHECKS = {
          "DESIGN.md §4 C17"),
  "C18": ("exploration",
          "runtime monitor: counting element generator (serial-set membership, exact sizes) for collection generators; identity/serial membership + Bernstein uniformity + num_choices for 19 choice-construction flavours; 16 empty-collection constructions must be rejected at construction",
-         "Collection sizes 0..130, both sides of multiples of 64 up to 4097, 10^4, 65536, 65537 over Vec (three construction paths, repeated sampling), Bitstring (incl. random / random_with_probability), Plushy and scored populations; choices built from collections of size 1..8, 13, 64, 100, 257, 1000 (and 3*2^22 for index residues) with duplicate values at distinct positions, 2e6 (quick) / 4e7 (thorough) draws per (flavour, size).",
+         "Collection sizes 0..130, both sides of multiples of 64 up to 4097, 10^4, 65536, 65537 over Vec (three construction paths, repeated sampling), Bitstring (incl. random / random_with_probability), Plushy and scored populations; choices built from collections of size 1..8, 13, 64, 100, 257, 1000 (and 3*2^22 for index residues) with duplicate values at distinct positions, 2e6 (quick) / 4e7 (thorough) draws per (flavour, size). The public size / element-generator fields of a collection generator are reassigned after sampling and the next collection must follow them.",
          "Order inside a generated collection and over-draw from the element generator are recorded, not judged.",
          "DESIGN.md §4 C18"),
  "C06": ("exploration",
          "runtime monitor: identity invariant (ptr::eq against the population's own elements) + documented-error table per configuration + panic capture, through every access path (direct, &S, Select operator, &dyn, Box<dyn>) and 13 weighted nestings with run-time chosen members",
-         "2e5 (quick) / 3e6 (thorough) random populations of size 0..9 (empty, singleton, all-equal, duplicate-laden, uneven result counts) x Best, Worst, Random, Tournament(k=1..n+2), Lexicase(cases 0..m+2, both polarities) x five access paths, every 4th round the same contract on VecDeque / LinkedList / BTreeSet / Box<[T]> / [T; N] populations, every 16th dynamic lists with usize weights whose total exceeds usize::MAX, every 40th round a large population (10..4099 members, tournament sizes around 8/16/32/64, sqrt(n), n/2, n-1, n, n+1, up to 34 cases), plus six random weighted combinations per population with weights incl. 0: Ok must be that very element, Err must be the documented error for that configuration (and must occur where documented), exactly one positive-weight member is used per selection.",
+         "2e5 (quick) / 3e6 (thorough) random populations of size 0..9 (empty, singleton, all-equal, duplicate-laden, uneven result counts) x Best, Worst, Random, Tournament(k=1..n+2), Lexicase(cases 0..m+2, both polarities) x five access paths, every 4th round the same contract on VecDeque / LinkedList / BTreeSet / Box<[T]> / [T; N] populations, every 16th dynamic lists with usize weights whose total exceeds usize::MAX, every 40th round a large population (10..4099 members, tournament sizes around 8/16/32/64, sqrt(n), n/2, n-1, n, n+1, up to 34 cases), plus six random weighted combinations per population with weights incl. 0: Ok must be that very element, Err must be the documented error for that configuration (and must occur where documented), exactly one positive-weight member is used per selection. Dynamic weighted lists are also used while being built (selections, failing ones included, between extensions; judged against the weights at that moment).",
          "Documented errors are recognised by their type names in the Debug rendering of nested error types.",
          "DESIGN.md §4 C06"),
  "C07": ("exploration",
@@ -48,7 +48,7 @@ CHECKS = {
          "DESIGN.md §4 C08"),
  "C10": ("exploration",
          "runtime monitor: tagged / complementary parents make the origin of every child gene readable; segment and mask coverage; exhaustive argument sweep of the exchange primitives with panic capture",
-         "TwoPointXo/UniformXo x four genome flavours x lengths {0..9,15..17,31..33,63..65,127..129,257,1000}, 5e5 (quick) / 1e7 (thorough) draws each (scaled down with the length): length, position-wise origin, one contiguous segment, every segment incl. both ends occurs (len<=6), the classes left-end / right-end / whole / inside occur on longer genomes when >= 600 such draws are expected, every uniform mask occurs; all ordered pairs of different lengths on all eight flavours must give DifferentGenomeLength(l1,l2); crossover_gene/crossover_segment for every index/range on genomes of length 0..4 (equal and different lengths): exact swap or error, never a panic, nothing else touched.",
+         "TwoPointXo/UniformXo x four genome flavours x lengths {0..9,15..17,31..33,63..65,127..129,257,1000}, 5e5 (quick) / 1e7 (thorough) draws each (scaled down with the length): length, position-wise origin, one contiguous segment, every segment incl. both ends occurs (len<=6), the classes left-end / right-end / whole / inside occur on longer genomes when >= 600 such draws are expected, every uniform mask occurs; all ordered pairs of different lengths on all eight flavours must give DifferentGenomeLength(l1,l2); crossover_gene/crossover_segment for every index/range on genomes of length 0..4 (equal and different lengths): exact swap or error, never a panic, nothing else touched. Reversed ranges must not panic or modify either genome.",
          "Reversed and empty out-of-bounds ranges are exercised but not judged; the empty exchange is recorded, not demanded; empty ranges beyond the end of a genome must be errors.",
          "DESIGN.md §4 C10"),
  "C11": ("exploration",
@@ -58,7 +58,7 @@ CHECKS = {
          "DESIGN.md §4 C11"),
  "C12": ("exploration",
          "runtime statistical monitor (Bernstein 1e-10 per category; p=0/p=1 exact; Hoeffding for mean child length) over 285 configurations of rates, lengths and generators",
-         "Per-gene flip frequency and adjacent-pair joint frequency for WithRate / WithOneOverLength; UMAD (through all three constructors, the empty-genome rate set far from both other rates) per-position deletion, aggregated additions a(1-d), the full joint law on one-gene parents, empty-parent additions for all three constructors, mean child length incl. d=a/(1+a); uniform crossover 1/2 and pair independence on four flavours; Bitstring::random*, BoolGenerator; GeneGenerator through all six public constructors: close frequency (explicit and default 1/(n+1), n=1..31) and instruction frequencies (uniform and skewed, direct and via a Plushy collection generator); lengths 100/200/1000 for bit-flip, random bitstrings and uniform crossover; the 1/length rate also on 3000..70000 genes (aggregated). 2e6 (quick) / 4e7 (thorough) samples per configuration before length scaling.",
+         "Per-gene flip frequency and adjacent-pair joint frequency for WithRate / WithOneOverLength; UMAD (through all three constructors, the empty-genome rate set far from both other rates) per-position deletion, aggregated additions a(1-d), the full joint law on one-gene parents, empty-parent additions for all three constructors, mean child length incl. d=a/(1+a); uniform crossover 1/2 and pair independence on four flavours; Bitstring::random*, BoolGenerator; GeneGenerator through all six public constructors: close frequency (explicit and default 1/(n+1), n=1..31) and instruction frequencies (uniform and skewed, direct and via a Plushy collection generator); lengths 100/200/1000 for bit-flip, random bitstrings and uniform crossover; the 1/length rate also on 3000..70000 genes (aggregated). 2e6 (quick) / 4e7 (thorough) samples per configuration before length scaling. BoolGenerator is also reconfigured through its public probability field after construction and after a draw.",
          "A bias below the stated resolution is invisible.",
          "DESIGN.md §4 C12"),
  "C13": ("exploration",
@@ -83,7 +83,7 @@ CHECKS = {
          "DESIGN.md §4 C19"),
  "C01": ("exploration",
          "runtime monitor: differential against an independently written reference interpreter (set-valued where the statement is silent); instruction x boundary-state matrix, exhaustive boundary-operand sweeps, random nested programs and Plushy genomes run at step limits 0..T so every intermediate state of the real loop is compared",
-         "Every instruction shape (88) is performed on the cross product of capacities {0,1,2,3,4,8} x fills {0,1,2,3,cap-1,cap} of each stack it touches with boundary operands (i64 extremes, NaN, infinities, signed zeros, subnormals), plus exhaustive pool^2 operand sweeps; literals built through every public constructor; input names from a short pool or a pool of confusable names; 2.5e5 (quick) / 3.8e6 (thorough) random programs incl. Plushy-translated ones are run to completion under every step limit 0..T and compared state-for-state (all stacks, capacities, stdout, limit, input bindings) with the reference interpreter. Sampled, not exhaustive.",
+         "Every instruction shape (88) is performed on the cross product of capacities {0,1,2,3,4,8} x fills {0,1,2,3,cap-1,cap} of each stack it touches with boundary operands (i64 extremes, NaN, infinities, signed zeros, subnormals), plus exhaustive pool^2 operand sweeps; literals built through every public constructor; input names from a short pool or a pool of confusable names; 2.5e5 (quick) / 3.8e6 (thorough) random programs incl. Plushy-translated ones are run to completion under every step limit 0..T and compared state-for-state (all stacks, capacities, stdout, limit, input bindings) with the reference interpreter. Sampled, not exhaustive. Reading the printed output is checked as an observation: read twice from the same state, read again after printing more (directly and by a run).",
          "Trusts the reference interpreter in harness/vh-push/src/pushvm.rs as the reading of the documented semantics; it accepts several outcomes where the statement is silent (double faults, i64::MIN % -1, exponents >= 2^32).",
          "DESIGN.md §4 C01"),
  "C02": ("fault_enumeration",
